@@ -111,6 +111,8 @@ def ckObs (progs : List String) (obs : String) : Option (String × String) :=
         let parts := c.splitOn "="
         (t, k, (parts.headD "").splitOn "+", parts.getD 1 ""))
   let allEvs := calls.flatMap fun (_, _, evs, _) => evs
+  if calls.any (fun (_, k, evs, r) => k == "d" && (evs.any (· != "") || r != "D")) then
+    some ("C18", "formatting the holder with Debug read the cell or the state (an unsynchronised read that can race with a set)") else
   -- (the numeric values of the states are the implementation's business: only ok / er matters here)
   let casOk := calls.filter fun (_, k, evs, _) => k == "s" && evs.any fun e => (evBody e).startsWith "C." && (((evBody e).splitOn ".").getD 3 "").startsWith "ok"
   if casOk.length > 1 then some ("C18", "more than one set won") else
@@ -151,12 +153,24 @@ def runHolder (_prop : String) (f : List String) (obsS : String) : Verdict :=
   match f with
   | [_, progsS, schedS] =>
     if obsS == "hook-guard-off" then badCase else
-    let progs := ((if progsS.startsWith "D:" then (progsS.drop 2).toString else progsS)).splitOn "/"
+    let progs := ((if progsS.startsWith "D:" || progsS.startsWith "G:" then (progsS.drop 2).toString else progsS)).splitOn "/"
     let sched := (splitList schedS ",").filterMap String.toNat?
-    let model := modelRun Ords.source (progs.map parseProg) sched
+    -- a Debug call is no operation of the model: `=D` with no events at its position
+    let model0 := modelRun Ords.source (progs.map parseProg) sched
+    let model := "/".intercalate (((model0.splitOn "/").zip progs).map fun (th, p) =>
+      let calls := if th == "" then [] else th.splitOn ","
+      let rec weave (ks : List Char) (cs : List String) : List String :=
+        match ks with
+        | [] => cs
+        | 'd' :: ks' => "=D" :: weave ks' cs
+        | _ :: ks' => match cs with
+          | c :: cs' => c :: weave ks' cs'
+          | [] => []
+      ",".intercalate (weave p.toList calls))
     let v := ckObs progs obsS
     let tags := (if obsS.contains "er" then ["losing-set"] else []) ++ (if obsS.contains "=N" then ["get-before-complete"] else []) ++
-      (if obsS.contains "=P" then ["get-after-complete"] else []) ++ (if progs.length > 2 then ["three-threads"] else [])
+      (if obsS.contains "=P" then ["get-after-complete"] else []) ++ (if progs.length > 2 then ["three-threads"] else []) ++
+      (if progsS.startsWith "G:" then ["global-functions"] else [])
     ⟨model == obsS, obsS, model, v, tags, false⟩
   | _ => badCase
 
